@@ -46,3 +46,122 @@ def bptc196_info_positions() -> List[int]:
                 continue
             pos.append(bptc196_position(r * 15 + c + 1))
     return pos
+
+
+# ------------------------------------------------------------------------------------------------------------------
+# Variable-length BPTCs (ETSI TS 102 361-1 B.2.1 embedded LC 128/72, B.2.3 CACH short LC 68/28, B.2.2 single burst
+# 32/11).  Closed-form layouts; nothing is copied from the library's INTERLEAVING_INDICES tables.  The layouts (and the
+# checksum bit placement) were validated against on-air captures that the repository's tests carry: 8 embedded-LC
+# fragments of okdmr/tests/dmrlib/etsi/layer2/pdu/test_full_link_control.py (+1 in fec/test_vbptc_128_72.py), 2 distinct
+# short-LC captures of fec/test_vbptc_68_36.py and the single-burst capture of fec/test_vbptc_32_11.py: every one of
+# them is a complete codeword of the functions below (rows, columns, checksum).
+
+
+def cs5(msg72: List[int]) -> int:
+    """B.3.11 5-bit checksum: sum of the nine LC octets modulo 31."""
+    assert len(msg72) == 72
+    return sum(gf2.bits_to_int(msg72[i * 8 : i * 8 + 8]) for i in range(9)) % 31
+
+
+def crc8(bits: List[int]) -> int:
+    """B.3.7 CRC-8, G(x) = x^8 + x^2 + x + 1, no inversion, no mask (short LC)."""
+    return gf2.crc_rem(bits, 8, 0x07)
+
+
+def vbptc128_position(row: int, col: int) -> int:
+    """transmit position of matrix cell (row 0..7, col 0..15): the 8x16 matrix is sent column by column"""
+    return col * 8 + row
+
+
+def vbptc128_matrix(msg72: List[int]) -> List[List[int]]:
+    """8x16: rows 0,1 carry 11 LC bits, rows 2..6 carry 10 LC bits + one checksum bit (CS4 in row 2 ... CS0 in row 6,
+    column 10), each followed by 5 Hamming(16,11,4) bits; row 7 is even column parity."""
+    m = [int(b) for b in msg72]
+    cs = gf2.int_to_bits(cs5(m), 5)  # CS4..CS0
+    data_rows = [m[0:11], m[11:22]]
+    for i in range(5):
+        data_rows.append(m[22 + 10 * i : 32 + 10 * i] + [cs[i]])
+    rows = [gf2.ref_encode("hamming_16_11_4", r) for r in data_rows]
+    rows.append([sum(rows[r][c] for r in range(7)) & 1 for c in range(16)])
+    return rows
+
+
+def vbptc128_encode(msg72: List[int]) -> List[int]:
+    mat = vbptc128_matrix(msg72)
+    out = [0] * 128
+    for r in range(8):
+        for c in range(16):
+            out[vbptc128_position(r, c)] = mat[r][c]
+    return out
+
+
+def vbptc128_to_matrix(tx128: List[int]) -> List[List[int]]:
+    return [[int(tx128[vbptc128_position(r, c)]) for c in range(16)] for r in range(8)]
+
+
+def vbptc128_checksum_dependent_positions() -> List[int]:
+    """transmit positions whose value depends on the (non-linear) checksum: CS cells, the Hamming bits of rows 2..6 and the
+    column parity of columns 10..15"""
+    pos = set()
+    for r in range(2, 7):
+        for c in range(10, 16):
+            pos.add(vbptc128_position(r, c))
+    for c in range(10, 16):
+        pos.add(vbptc128_position(7, c))
+    return sorted(pos)
+
+
+def vbptc68_position(row: int, col: int) -> int:
+    """4x17 matrix sent column by column"""
+    return col * 4 + row
+
+
+def vbptc68_matrix(msg28: List[int]) -> List[List[int]]:
+    """4x17: rows 0,1 carry 12 info bits, row 2 carries the last 4 info bits + CRC-8 (CR7 first); each row is followed by
+    5 Hamming(17,12,3) bits; row 3 is even column parity."""
+    m = [int(b) for b in msg28]
+    assert len(m) == 28
+    cr = gf2.int_to_bits(crc8(m), 8)
+    data_rows = [m[0:12], m[12:24], m[24:28] + cr]
+    rows = [gf2.ref_encode("hamming_17_12_3", r) for r in data_rows]
+    rows.append([sum(rows[r][c] for r in range(3)) & 1 for c in range(17)])
+    return rows
+
+
+def vbptc68_encode(msg28: List[int]) -> List[int]:
+    mat = vbptc68_matrix(msg28)
+    out = [0] * 68
+    for r in range(4):
+        for c in range(17):
+            out[vbptc68_position(r, c)] = mat[r][c]
+    return out
+
+
+def vbptc68_to_matrix(tx68: List[int]) -> List[List[int]]:
+    return [[int(tx68[vbptc68_position(r, c)]) for c in range(17)] for r in range(4)]
+
+
+def vbptc32_position(row: int, col: int) -> int:
+    """2x16 matrix: the code row occupies the even transmit positions in column order, the parity row the odd positions,
+    rotated by eight columns so that a bit and its parity bit are 17 positions apart (position = 2*col + 17 mod 32)"""
+    return 2 * col if row == 0 else (2 * col + 17) % 32
+
+
+def vbptc32_matrix(msg11: List[int], even: bool = True) -> List[List[int]]:
+    m = [int(b) for b in msg11]
+    assert len(m) == 11
+    row = gf2.ref_encode("hamming_16_11_4", m)
+    return [row, [b if even else b ^ 1 for b in row]]
+
+
+def vbptc32_encode(msg11: List[int], even: bool = True) -> List[int]:
+    mat = vbptc32_matrix(msg11, even)
+    out = [0] * 32
+    for r in range(2):
+        for c in range(16):
+            out[vbptc32_position(r, c)] = mat[r][c]
+    return out
+
+
+def vbptc32_to_matrix(tx32: List[int]) -> List[List[int]]:
+    return [[int(tx32[vbptc32_position(r, c)]) for c in range(16)] for r in range(2)]
